@@ -342,12 +342,15 @@ def r_simdate(E):
                                         rel, c.lineno, fn.name))
     rel, fn = pm.find_function(MU, "ModelingUpdate.compute_hourly_quantities_to_filter")
     res.instances += 1
-    sel = [n for n in ast.walk(fn) if isinstance(n, ast.If) and "simulation_date" in norm(n.test)
+    sel = [n.test for n in ast.walk(fn) if isinstance(n, ast.If) and "simulation_date" in norm(n.test)
            and any(isinstance(c.func, ast.Attribute) and c.func.attr == "append" for c in _calls(n))]
+    # the same selection as the filter of a comprehension
+    sel += [t for c in ast.walk(fn) if isinstance(c, (ast.ListComp, ast.GeneratorExp)) for g in c.generators for t in g.ifs
+            if "simulation_date" in norm(t)]
     if len(sel) != 1:
         res.undecided.append("compute_hourly_quantities_to_filter: selection test not found")
     else:
-        t = sel[0].test
+        t = sel[0]
         if not (isinstance(t, ast.Compare) and ((isinstance(t.ops[0], ast.LtE) and "simulation_date" in norm(t.left)
                                                   and "max" in norm(t.comparators[0]))
                                                  or (isinstance(t.ops[0], ast.GtE) and "max" in norm(t.left)))):
@@ -379,7 +382,8 @@ def r_simdate(E):
                 "R-SIMDATE", "period check skipped on a path",
                 f"compute_hourly_quantities_to_filter returns without testing the simulation date against the modelled "
                 f"period when `{cond[:150]}`: on that path a date outside the period is accepted", rel, fn.lineno, fn.name))
-    rel, fn = pm.find_function(MU, "ModelingUpdate.__init__")
+    from .framework import TxnAnalysis as _TA
+    rel, fn = _TA(pm).rel, _TA(pm).methods["__init__"]
     res.instances += 1
     naive = [n for n in ast.walk(fn) if isinstance(n, ast.If) and "tzinfo is None" in norm(n.test)
              and any(isinstance(x, ast.Raise) for x in n.body)]
